@@ -210,8 +210,13 @@ static void op_mr(char **w, int nw)
 #ifdef H_C10_WITH_DATA
 void op_data(char **w, int nw);           /* h_c10_data.c */
 void h_c10_data_reset(void);
+void op_stream(char **w, int nw);
 void op_image(char **w, int nw);          /* h_c10_img.c */
 void h_c10_img_reset(void);
+void op_dd(char **w, int nw);             /* h_c10_dec.c */
+void op_xr(char **w, int nw);
+void op_idt(char **w, int nw);
+void h_c10_dec_reset(void);
 #endif
 
 sqfs_file_t *h_c10_memfile(void) { return (sqfs_file_t *)&g_file; }
@@ -241,6 +246,7 @@ int main(void)
 #ifdef H_C10_WITH_DATA
 			h_c10_data_reset();
 			h_c10_img_reset();
+			h_c10_dec_reset();
 #endif
 			printf("ok %ld\n", n);
 		} else if (strcmp(w[0], "bad") == 0 && nw == 3) {
@@ -256,6 +262,14 @@ int main(void)
 #ifdef H_C10_WITH_DATA
 		} else if (strcmp(w[0], "dr") == 0) {
 			op_data(w, nw);
+		} else if (strcmp(w[0], "st") == 0) {
+			op_stream(w, nw);
+		} else if (strcmp(w[0], "dd") == 0) {
+			op_dd(w, nw);
+		} else if (strcmp(w[0], "xr") == 0) {
+			op_xr(w, nw);
+		} else if (strcmp(w[0], "idt") == 0) {
+			op_idt(w, nw);
 		} else if (strcmp(w[0], "img") == 0) {
 			op_image(w, nw);
 		} else if (strcmp(w[0], "imgfile") == 0 && nw == 2) {
@@ -270,6 +284,7 @@ int main(void)
 			for (int i = 0; i < NSLOT; ++i) { if (g_mr[i]) sqfs_drop(g_mr[i]); g_mr[i] = NULL; }
 			h_c10_data_reset();
 			h_c10_img_reset();
+			h_c10_dec_reset();
 			free(g_file.data);
 			g_file.data = buf; g_file.size = (size_t)n; g_file.nbad = 0;
 			printf("ok %ld\n", n);
